@@ -127,13 +127,14 @@ pub fn cmp_cases(out: &mut dyn Write, seed: u64, n: usize, shard: usize, nshards
     // random longer: prefixes, common prefixes, non-UTF-8
     for i in 0..n {
         if i % nshards != shard { rng.next(); continue; }
-        let len = rng.range(0, 24) as usize;
+        // one pair in twelve is long (1 KB .. 5 KB): differences only near the end, after a long common prefix
+        let len = if rng.chance(1, 12) { *rng.pick(&[1000u64, 1024, 1025, 4096, 4097, 5000]) } else { rng.range(0, 24) } as usize;
         let ascii = rng.chance(1, 2);
         let x: Vec<u8> = (0..len).map(|_| if ascii { (rng.next() % 128) as u8 } else { rng.next() as u8 }).collect();
         let y: Vec<u8> = match rng.below(5) {
             0 => x.clone(), 1 => x[..rng.below(len as u64 + 1) as usize].to_vec(),
             2 => { let mut v = x.clone(); v.push(rng.next() as u8 % if ascii { 128 } else { 255 }); v }
-            3 => { let mut v = x.clone(); if !v.is_empty() { let k = rng.below(len as u64) as usize; v[k] = v[k].wrapping_add(1) % if ascii { 128 } else { 255 }; } v }
+            3 => { let mut v = x.clone(); if !v.is_empty() { let k = if len > 100 && rng.chance(2, 3) { len - 1 - rng.below(3) as usize } else { rng.below(len as u64) as usize }; v[k] = v[k].wrapping_add(1) % if ascii { 128 } else { 255 }; } v }
             _ => (0..rng.range(0, 24)).map(|_| if ascii { (rng.next() % 128) as u8 } else { rng.next() as u8 }).collect(),
         };
         one_pair(out, &x, &y, rng.next() as usize, rng.next() as usize);
